@@ -25,6 +25,14 @@ UNITS = {
 
 # property -> units per tier, claim text for the manifest
 PROPS = {
+    'C04': dict(quick=['core'], thorough=['core'],
+                claim='vector_commitment_decommit is proved to succeed exactly when the work-list walk of the statement (spec function root_spec: siblings merged when adjacent, otherwise one authentication node consumed, parents appended, hash chosen by depth vs friendly-layer count, masked hash = low 160/248 bits of H(be32(x)||be32(y))) yields the committed root; missing node <=> Err.',
+                technique='functional postconditions (code == spec walk) on vector_commitment_decommit, compute_root_from_queries (with termination measure), hash_friendly_unfriendly',
+                note='Completeness/binding of the walk against an independent Merkle tree oracle for all shapes: see evidence (lemma status).'),
+    'C05': dict(quick=['core'], thorough=['core'],
+                claim='table_decommit is proved to succeed exactly when the column count fits u32, cells = columns x queries, and the vector decommitment of the row leaves (Montgomery cells; single column unhashed; poseidon_many or masked digest of concatenated be32 cells chosen by the depth height+1 friendly rule) succeeds.',
+                technique='exact (<=>) postcondition on table_decommit, functional postcondition + loop invariant on generate_vector_queries',
+                note='The two iterator chains (into_iter().map().collect(), extend(flat_map)) enter through hoisting rules with assumed std semantics (A-iter).'),
     'C08': dict(quick=['core'], thorough=['core'],
                 claim='Every Transcript operation is proved equal to a spec of the absorb/squeeze state machine (squeeze = poseidon(digest,counter), counter+1; absorb = poseidon_many([digest+1]++msg), counter reset); protocol functions are proved to perform exactly the scripted operations in order.',
                 technique='postconditions over the transcript state machine on Transcript::*, pow commit, generate_queries',
